@@ -355,3 +355,213 @@ def explore(tier, seed):
     return {"cases": cases, "failures": fails, "exhaustive": False,
             "bound": f"{n} seeded single-block riscv functions (<= 6 ops from li/add/mul/mv and the two-result parallel_mov with used and unused results, values used several times, <= 2 returned, pre-allocated a0/a1/t0), "
                      "pools of 1/2/3/5 integer registers and an infinite-register run; allocated code executed on a register machine"}
+
+
+# ----------------------------------------------------------------------------------------------------------------- loops (riscv_scf.for)
+def build_loop(spec):
+    """
+    spec = {"lb": int, "ub": int, "step": int, "dynamic": bool, "ninit": 0..2, "body": [(kind, a, b)], "yields": [ref], "after": [names], "w_in_body": bool}
+    A single-block function: constants, ONE riscv_scf.for (static or dynamic step), a sum of the loop results and of the `after` values, returned.
+    Body value refs index into [iv, acc.., w?, ub?, step?, temporaries...]; yields index into the body temporaries (fresh values), so the
+    loop-carried registers are never asked to hold a second live value.
+    """
+    from xdsl.dialects import riscv, riscv_func, riscv_scf, rv32
+    from xdsl.dialects.builtin import IntegerAttr, ModuleOp, i32
+    from xdsl.ir import Block, Region
+
+    U = riscv.Registers.UNALLOCATED_INT
+    ops = []
+
+    def li(v):
+        o = rv32.LiOp(v, rd=U)
+        ops.append(o)
+        return o.rd
+
+    lb, ub = li(spec["lb"]), li(spec["ub"])
+    step = li(spec["step"]) if spec["dynamic"] else None
+    w = li(50)
+    inits = [li(100 + i) for i in range(spec["ninit"])]
+    blk = Block(arg_types=[U] * (1 + spec["ninit"]))
+    avail = list(blk.args)
+    if spec["w_in_body"]:
+        avail.append(w)
+    if spec.get("ub_in_body"):
+        avail.append(ub)
+    if spec.get("step_in_body") and step is not None:
+        avail.append(step)
+    temps = []
+    body_ops = []
+    for kind, a, b in spec["body"]:
+        if kind == "li":
+            o = rv32.LiOp(7 + len(temps), rd=U)
+        else:
+            pool = avail + temps
+            o = (riscv.AddOp if kind == "add" else riscv.MulOp)(pool[a % len(pool)], pool[b % len(pool)], rd=U)
+        body_ops.append(o)
+        temps.append(o.results[0])
+    ys = []
+    for i in range(spec["ninit"]):
+        # a fresh value per carried position: acc_i + (some body value)
+        pool = avail + temps
+        o = riscv.AddOp(blk.args[1 + i], pool[spec["yields"][i] % len(pool)], rd=U)
+        body_ops.append(o)
+        ys.append(o.rd)
+    body_ops.append(riscv_scf.YieldOp(*ys))
+    blk.add_ops(body_ops)
+    loop = riscv_scf.ForOp(lb, ub, step if step is not None else IntegerAttr(spec["step"], i32), inits, Region(blk))
+    ops.append(loop)
+    total = li(1)
+    named = {"w": w, "ub": ub, "step": step, "lb": lb}
+    for v in list(loop.results) + [named[n] for n in spec["after"] if named[n] is not None]:
+        o = riscv.AddOp(total, v, rd=U)
+        ops.append(o)
+        total = o.rd
+    ops.append(riscv_func.ReturnOp(total))
+    f = riscv_func.FuncOp("f", Region(Block(ops)), ((), ()))
+    return ModuleOp([f]), f
+
+
+def run_loop_program(f, key):
+    """Concrete execution; `key` maps a value to the storage cell it lives in (the value itself: SSA semantics; its register: machine semantics)."""
+    env = {}
+
+    def rd(v):
+        k = key(v)
+        if k == "zero":
+            return 0
+        return env[k]
+
+    def wr(v, x):
+        k = key(v)
+        if k != "zero":
+            env[k] = x
+
+    def run(o):
+        n = o.name
+        if n == "rv32.li":
+            wr(o.results[0], o.immediate.value.data)
+        elif n == "riscv.add":
+            wr(o.results[0], rd(o.operands[0]) + rd(o.operands[1]))
+        elif n == "riscv.mul":
+            wr(o.results[0], rd(o.operands[0]) * rd(o.operands[1]))
+        elif n == "riscv_scf.for":
+            body = o.body.block
+            iv, *accs = body.args
+            for acc, init in zip(accs, o.iter_args):
+                wr(acc, rd(init))
+            wr(iv, rd(o.lb))
+            y = body.last_op
+            it = 0
+            while rd(iv) < rd(o.ub):
+                it += 1
+                if it > 50:
+                    raise RuntimeError("loop does not terminate at register level")
+                for inner in body.ops:
+                    if inner is not y:
+                        run(inner)
+                new = [rd(v) for v in y.operands]
+                for acc, x in zip(accs, new):
+                    wr(acc, x)
+                wr(iv, rd(iv) + (rd(o.step_val) if o.step_val is not None else o.step_attr.value.data))  # ub and a dynamic step are read on EVERY iteration
+            for res, acc in zip(o.results, accs):
+                wr(res, rd(acc))
+        elif n == "riscv_func.return":
+            env["__ret__"] = [rd(v) for v in o.operands]
+        else:
+            raise NotImplementedError(n)
+
+    for o in f.body.block.ops:
+        run(o)
+    return env["__ret__"]
+
+
+@rechecked
+def check_loop(spec):
+    from xdsl.context import Context
+    from xdsl.dialects import builtin, riscv, riscv_func, riscv_scf, rv32
+    from xdsl.transforms.riscv_allocate_registers import RISCVAllocateRegistersPass
+    from xdsl.utils.exceptions import DiagnosticException
+
+    spec = dict(spec, body=[tuple(b) for b in spec["body"]], yields=list(spec["yields"]), after=list(spec["after"]))
+    module, f = build_loop(spec)
+    try:
+        module.verify()
+    except Exception:  # noqa: BLE001
+        return None  # not a valid program: outside the property
+    expected = run_loop_program(f, lambda v: ("ssa", id(v)))
+    before = str(module)
+    ctx = Context()
+    for d in (builtin.Builtin, riscv.RISCV, riscv_func.RISCV_Func, riscv_scf.RISCV_Scf, rv32.RV32):
+        ctx.load_dialect(d)
+    try:
+        RISCVAllocateRegistersPass().apply(ctx, module)
+    except DiagnosticException:
+        return None
+    except Exception as e:  # noqa: BLE001
+        return {"program": before, "raised": repr(e), "key": "C19/loop-crash"}
+
+    def reg(v):
+        if not v.type.is_allocated:
+            raise KeyError(f"value {v.name_hint} left unallocated")
+        return v.type.register_name.data
+
+    try:
+        got = run_loop_program(f, reg)
+    except (KeyError, RuntimeError) as e:
+        return {"program": before, "after": str(module), "why": f"register-level execution failed: {e}", "key": "C19/loop-interference", "inputs": loop_classes(f)}
+    if got != expected:
+        return {"program": before, "after": str(module), "why": f"register-level result {got} differs from the SSA result {expected}: two simultaneously live values share a register",
+                "key": "C19/loop-interference", "inputs": loop_classes(f)}
+    return None
+
+
+def loop_classes(f):
+    """Input class of the recorded known finding: some loop-carried block argument is still read AFTER the op that defines the value yielded in its position
+    (both are forced into one register by allocate_values_same_reg although they are simultaneously live)."""
+    hit = False
+    for o in f.body.block.ops:
+        if o.name != "riscv_scf.for":
+            continue
+        body = list(o.body.block.ops)
+        y = body[-1]
+        for i, yv in enumerate(y.operands):
+            acc = o.body.block.args[1 + i]
+            if yv.owner in body:
+                d = body.index(yv.owner)
+                if any(u.operation in body and body.index(u.operation) > d and u.operation is not y for u in acc.uses):
+                    hit = True
+    return {"a_carried_block_argument_is_read_after_its_yielded_value_is_defined": hit}
+
+
+def explore_loops(tier, seed):
+    import itertools
+
+    rnd = random.Random(seed)
+    specs = []
+    # exhaustive small family: loop shape x where ub / step / an outer value are read
+    for dynamic, ninit, nb, w_in, after in itertools.product((False, True), (0, 1, 2), (0, 1, 2), (False, True), ((), ("w",), ("step",), ("ub", "w"), ("lb",))):
+        for lb, ub, step in ((0, 2, 1), (1, 4, 2), (0, 0, 1)):
+            body = [("li", 0, 0)] * min(nb, 1) + [("add", 0, nb + 1)] * max(nb - 1, 0)
+            specs.append({"lb": lb, "ub": ub, "step": step, "dynamic": dynamic, "ninit": ninit, "body": body, "yields": [ninit + 1 + i for i in range(ninit)],
+                          "after": list(after), "w_in_body": w_in})
+    n = 150 if tier == "quick" else 4000
+    for _ in range(n):
+        ninit = rnd.randrange(0, 3)
+        body = [(rnd.choice(["li", "add", "mul", "add"]), rnd.randrange(0, 9), rnd.randrange(0, 9)) for _ in range(rnd.randrange(0, 4))]
+        specs.append({"lb": rnd.choice([0, 1]), "ub": rnd.choice([0, 1, 2, 3]), "step": rnd.choice([1, 2]), "dynamic": rnd.random() < 0.6, "ninit": ninit, "body": body,
+                      "yields": [rnd.randrange(0, 9) for _ in range(ninit)], "after": rnd.sample(["w", "ub", "step", "lb"], rnd.randrange(0, 3)),
+                      "w_in_body": rnd.random() < 0.5, "ub_in_body": rnd.random() < 0.3, "step_in_body": rnd.random() < 0.3})
+    cases = 0
+    fails = []
+    seen = set()
+    for spec in specs:
+        cases += 1
+        f = check_loop(spec)
+        k = f and (f["key"], tuple(sorted((f.get("inputs") or {}).items())))
+        if f and k not in seen:
+            seen.add(k)
+            fails.append(f)
+    return {"cases": cases, "failures": fails, "exhaustive": False,
+            "bound": f"{cases} single-block riscv functions with ONE riscv_scf.for (static / dynamic step, 0-2 loop-carried values each yielded as a fresh body value, <= 3 further body "
+                     "ops over the induction variable, the carried values, outer values, ub and step; ub / step / lb / an outer value optionally read again after the loop; 0-3 "
+                     "iterations), allocated by the real riscv-allocate-registers pass and executed concretely at SSA level and at register level"}
